@@ -54,7 +54,8 @@ def build(case):
     if len(patches) == 1:
         D = patches[0]
     else:
-        conn = [tuple(tuple(x) for x in c) for c in case["connectivity"]]
+        # an interface: (minus face, plus face) or (minus face, plus face, orientation)
+        conn = [tuple(tuple(x) if isinstance(x, (list, tuple)) else x for x in c) for c in case["connectivity"]]
         D = Domain.join(patches, conn, "Omega")
     return D, patches, maps
 
@@ -298,8 +299,19 @@ class EnvP(ser.Env):
         self.fields, self.consts, self.maps, self.mapping = {}, {}, {}, None
 
 
+class _Self:
+    """what the interface family (C04if_impl) re-uses from this module"""
+    pass
+
+
 def run_case(case):
     from sympy.core.cache import clear_cache
+    if case.get("iform") is not None:
+        # interface integrals with derivatives of restricted functions: runner + oracle of their own
+        import C04if_impl
+        ns = _Self()
+        ns.build, ns.region_of, ns.ser_target, ns.kernel_expr, ns.EnvP = build, region_of, ser_target, kernel_expr, EnvP
+        return C04if_impl.run_if_case(case, ns)
     clear_cache()
     D, patches, maps = build(case)
     env = EnvP(case["pdim"])
